@@ -109,7 +109,7 @@ static bool execOp(char k, unsigned a) {
 }
 
 // ---------------------------------------------------------------- graph extraction
-struct Cfg { std::vector<unsigned> ks; unsigned flyMax = 40; long maxNodes = 200000; };
+struct Cfg { std::vector<unsigned> ks; unsigned flyMax = 40; long maxNodes = 20000; };
 static Cfg C;
 struct Edge { std::string in, op, ev; long to; };
 
@@ -144,7 +144,11 @@ static int cmdGraph(const char* outPath) {
       line += "{\"in\":\"" + edges[i].in + "\",\"op\":" + edges[i].op + ",\"ev\":[" + edges[i].ev + "],\"to\":" + std::to_string(edges[i].to) + "}";
     }
     out.raw(line + "]}\n"); nedges += (long)edges.size();
-    if (nextId > C.maxNodes) { fprintf(stderr, "no fix-point within maxnodes\n"); return 2; }
+    if (nextId > C.maxNodes) {  // no fix-point (buffer content no longer a function of the fill levels): partial graph of real paths
+      for (long k = expanded + 1; k < nextId; k++) out.raw("{\"id\":" + std::to_string(k) + ",\"st\":{\"buf\":[],\"fly\":[]},\"succ\":[]}\n");
+      printf("{\"nodes\":%ld,\"edges\":%ld,\"fixpoint\":false,\"bufsize\":%zu}\n", nextId - 1, nedges, VerifAccess::bufSize());
+      return 0;
+    }
   }
   printf("{\"nodes\":%ld,\"edges\":%ld,\"fixpoint\":true,\"bufsize\":%zu}\n", expanded, nedges, VerifAccess::bufSize());
   return 0;
